@@ -116,16 +116,26 @@ def c16_b(ctx: Ctx):
                            "and one job is then exported into the directory of another")
             break
     if verdict is None:
-        add_loops = [lp for lp in loops if any(isinstance(c, ast.Call) and isinstance(c.func, ast.Attribute) and c.func.attr == "add" for c in ast.walk(lp))]
+        def _is_add(c):
+            return isinstance(c, ast.Call) and isinstance(c.func, ast.Attribute) and c.func.attr in ("add", "update") and canon(c.func.value) in sets
+        add_loops = [lp for lp in loops if any(_is_add(c) for c in ast.walk(lp))]
         test_loops = [lp for lp in loops if any(isinstance(c, ast.Raise) for c in ast.walk(lp))]
         # every proper prefix of a path is a node: the add sits in an inner loop over the token positions
         if add_loops:
             inner = [n for n in ast.walk(add_loops[0]) if isinstance(n, (ast.For, ast.While)) and n is not add_loops[0]
                      and any(isinstance(c, ast.Call) and isinstance(c.func, ast.Attribute) and c.func.attr == "add" for c in ast.walk(n))]
-            rng = [n for n in inner if any(isinstance(c, ast.Call) and isinstance(c.func, ast.Attribute) and c.func.attr == "add" and c.args and "tokens[:" in canon(c.args[0]).replace(" ", "")
-                                           for c in ast.walk(n)) and ("len(tokens)" in canon(n.iter if isinstance(n, ast.For) else n.test))]
-            if rng:
-                out.append(ctx.ok(R, f, rng[0], "every proper prefix of every path is registered as a node"))
+            def _prefixes_of_all(elt, bound):
+                """elt contains T[:I] and bound contains len(T) for the same T"""
+                for (_, b) in common.pfind("T[:I]", elt):
+                    if any(canon(b2["T"]) == canon(b["T"]) for (_, b2) in common.pfind("len(T)", bound)):
+                        return True
+                return False
+            rng = [n for n in inner if any(isinstance(c, ast.Call) and isinstance(c.func, ast.Attribute) and c.func.attr == "add" and c.args
+                                           and _prefixes_of_all(c.args[0], n.iter if isinstance(n, ast.For) else n.test) for c in ast.walk(n))]
+            upd = [c for c in ast.walk(add_loops[0]) if _is_add(c) and c.func.attr == "update" and c.args and isinstance(c.args[0], (ast.GeneratorExp, ast.SetComp, ast.ListComp))
+                   and _prefixes_of_all(c.args[0].elt, c.args[0].generators[0].iter)]
+            if rng or upd:
+                out.append(ctx.ok(R, f, (rng or upd)[0], "every proper prefix of every path is registered as a node"))
             elif inner:
                 out.append(ctx.inc(R, f, inner[0], "prefix enumeration has an unrecognised shape: " + stmt_key(inner[0], 60)))
             else:
@@ -138,7 +148,21 @@ def c16_b(ctx: Ctx):
             if it1 == it2 and (mat or it1 != f.params[0]):
                 out.append(ctx.ok(R, f, add_loops[0], "the paths are materialised before being iterated twice"))
             elif it1 == it2:
-                out.append(ctx.info(R, f, add_loops[0], "the argument is iterated twice without being materialised (fine for dict views, not for generators)"))
+                gens = []
+                for g in ctx.prog.funcs.values():
+                    if g.module.is_dep:
+                        continue
+                    for c in body_nodes(g):
+                        if isinstance(c, ast.Call) and f.qual in common.targets_of(ctx, g, c) and c.args:
+                            a0 = common.inline_at(ctx, g, c.args[0], c)
+                            if isinstance(a0, ast.GeneratorExp) or (isinstance(a0, ast.Call) and isinstance(a0.func, ast.Name) and a0.func.id in ("map", "filter", "iter", "zip")):
+                                gens.append((g, c))
+                if gens:
+                    g, c = gens[0]
+                    out.append(ctx.viol(R, g, c, f"{g.qual.split(':')[-1]} passes a one-shot iterable ({canon(c.args[0])[:40]}) to the leaf/node check, which iterates its argument twice without "
+                                        "materialising it: the second pass sees nothing, no conflict is ever reported and one job is exported into another's directory"))
+                else:
+                    out.append(ctx.info(R, f, add_loops[0], "the argument is iterated twice without being materialised (all callers pass re-iterable views)"))
         else:
             out.append(ctx.inc(R, f, f.node, "check structure not recognised"))
     elif verdict[0] == "viol":
@@ -200,12 +224,12 @@ def c16_c(ctx: Ctx):
     found = False
     for n in body_nodes(t):
         if isinstance(n, ast.If):
-            tt = canon(n.test).replace(" ", "")
-            if tt.startswith("os.path.dirname(name)in"):
+            bt = common.pmatch("os.path.dirname(N) in S", n.test)
+            if bt is not None:
                 found = True
-                setname = tt[len("os.path.dirname(name)in"):]
+                setname = canon(bt["S"])
                 adds = [c for st in n.body for c in walk_no_nested(st) if isinstance(c, ast.Call) and isinstance(c.func, ast.Attribute) and c.func.attr == "add"
-                        and canon(c.func.value) == setname and c.args and canon(c.args[0]) == "name"]
+                        and canon(c.func.value) == setname and c.args and canon(c.args[0]) == canon(bt["N"])]
                 conts = [c for st in n.body for c in walk_no_nested(st) if isinstance(c, ast.Continue)]
                 if adds and conts:
                     out.append(ctx.ok(R, t, n, "a directory whose parent is skipped is skipped and recorded itself: skipping is transitive"))
@@ -217,8 +241,7 @@ def c16_c(ctx: Ctx):
     # zip analyser: its directory set holds only directories that directly contain files, so it is not closed under parents;
     # skipping must therefore test *ancestry*, not parent membership
     z = ctx.fn(IE + ":_analyze_zipfile_for_import")
-    pm_tests = [n for n in body_nodes(z) if isinstance(n, ast.Compare) and len(n.ops) == 1 and isinstance(n.ops[0], ast.In)
-                and canon(n.left).replace(" ", "") == "os.path.dirname(name)"]
+    pm_tests = [n for n in body_nodes(z) if isinstance(n, ast.Compare) and common.pmatch("os.path.dirname(N) in S", n) is not None]
     anc = [c for c in body_nodes(z) if isinstance(c, ast.Call) and (IE + ":_zip_path_is_within") in common.targets_of(ctx, z, c)]
     if pm_tests:
         out.append(ctx.viol(R, z, pm_tests[0], f"the zip analyser skips sub-directories by parent membership ({canon(pm_tests[0])[:50]}); zip archives list no directory entries, so the "
@@ -282,7 +305,7 @@ def c16_e(ctx: Ctx):
         return [ctx.inc(R, f, f.node, "RE_TYPES does not fold to a dict")]
     accepted = set()
     for n in body_nodes(f):
-        if isinstance(n, ast.Compare) and len(n.ops) == 1 and "types[key]" in canon(n.left):
+        if isinstance(n, ast.Compare) and len(n.ops) == 1 and common.pmatch("D[K]", n.left) is not None and isinstance(n.left.value, ast.Name):
             v = ctx.fold(n.comparators[0], f)
             if isinstance(v, str):
                 accepted.add(v)
@@ -293,7 +316,9 @@ def c16_e(ctx: Ctx):
     else:
         out.append(ctx.viol(R, f, f.node, f"RE_TYPES has {sorted(types)} but the converter accepts {sorted(accepted)}: a schema string using {sorted(set(types) ^ accepted)} "
                             "builds a regex and then fails (or is never convertible)"))
-    anch = [n for n in body_nodes(f) if isinstance(n, ast.AugAssign) and canon(n.target) == "schema_regex" and ctx.fold(n.value, f) in ("$", r"\Z")]
+    # the regex accumulator: the local that the RE_TYPES fragments are appended to
+    acc = {canon(n.target) for n in body_nodes(f) if isinstance(n, ast.AugAssign) and "RE_TYPES" in names_in(n.value)}
+    anch = [n for n in body_nodes(f) if isinstance(n, ast.AugAssign) and canon(n.target) in acc and ctx.fold(n.value, f) in ("$", r"\Z")]
     if anch:
         out.append(ctx.ok(R, f, anch[0], "the generated regex is end-anchored"))
     else:
@@ -324,16 +349,23 @@ def c16_f(ctx: Ctx):
     out = []
     ej = ctx.fn(IE + ":_export_jobs")
     for n in body_nodes(ej):
-        if isinstance(n, ast.Assign) and any(isinstance(t, ast.Name) and t.id == "paths" for t in n.targets) and isinstance(n.value, ast.DictComp):
+        if isinstance(n, ast.Assign) and len(n.targets) == 1 and isinstance(n.targets[0], ast.Name) and isinstance(n.value, ast.DictComp):
             k, v = canon(n.value.key), canon(n.value.value)
-            if k == "job.path" and v.startswith("path_function(job"):
+            mapname = n.targets[0].id
+            bk, bv = common.pmatch("J.path", n.value.key), common.pmatch("F(J)", n.value.value)
+            if bk and bv and canon(bk["J"]) == canon(bv["J"]) and "path" in canon(bv["F"]):
                 out.append(ctx.ok(R, ej, n, "export maps job.path (source) -> path_function(job) (destination)"))
             else:
                 out.append(ctx.viol(R, ej, n, f"export path mapping is {{{k}: {v}}}: sources and destinations are not (job directory -> generated path)"))
     for n in body_nodes(ej):
         if isinstance(n, ast.Call) and isinstance(n.func, ast.Name) and n.func.id == "copytree":
-            if [canon(a) for a in n.args] == ["src", "dst"]:
-                out.append(ctx.ok(R, ej, n, "copytree(src, dst) with (src, dst) taken from the mapping"))
+            pm = ctx.parents(ej)
+            lp = pm.get(id(n))
+            while lp is not None and not isinstance(lp, ast.For):
+                lp = pm.get(id(lp))
+            tnames = common.target_names(lp.target) if lp is not None else []
+            if lp is not None and common.pmatch("M.items()", lp.iter) is not None and [canon(a) for a in n.args] == tnames and len(tnames) == 2:
+                out.append(ctx.ok(R, ej, n, "copytree(<key>, <value>) for (key, value) taken from the source -> destination mapping"))
             else:
                 out.append(ctx.viol(R, ej, n, f"{canon(n)}: arguments are not (source, destination)"))
     d = ctx.fn(IE + ":export_to_directory.<locals>.copytree_to_directory")
@@ -346,7 +378,7 @@ def c16_f(ctx: Ctx):
     calls = [n for n in body_nodes(c) if isinstance(n, ast.Call) and isinstance(n.func, ast.Name) and n.func.id == "copytree"]
     for n in calls:
         dst = common.inline_at(ctx, c, n.args[1], n) if len(n.args) > 1 else None
-        if dst is not None and canon(dst) in ("job.path", "job.ws") and canon(n.args[0]) == "src":
+        if dst is not None and canon(dst) in ("job.path", "job.ws") and canon(n.args[0]) == c.params[0]:
             out.append(ctx.ok(R, c, n, "import copies <source> into job.path"))
         else:
             out.append(ctx.viol(R, c, n, f"{canon(n)}: import does not copy into the job's own directory"))
@@ -367,10 +399,21 @@ def c16_f(ctx: Ctx):
             else:
                 out.append(ctx.viol(R, z, e.node, f"zip import writes to {canon(t)[:60]}, not beneath the job directory"))
     za = ctx.fn(IE + ":_analyze_zipfile_for_import")
-    ncomp = [n for n in body_nodes(za) if isinstance(n, ast.ListComp) and "names" in canon(n)]
-    for n in ncomp:
+    # the member list handed to the zip copy executor (4th argument), traced to its defining comprehension
+    execs = [c for c in body_nodes(za) if isinstance(c, ast.Call) and (dotted(c.func) or "").endswith("_CopyFromZipFileExecutor") and len(c.args) >= 4]
+    ncomp = []
+    for c in execs:
+        v = common.inline_at(ctx, za, c.args[3], c)
+        if isinstance(v, ast.ListComp):
+            ncomp.append((v, canon(c.args[1])))
+        else:
+            out.append(ctx.inc(R, za, c, f"member list of the zip executor is {canon(v)[:50]}"))
+    if not execs:
+        out.append(ctx.inc(R, za, za.node, "no _CopyFromZipFileExecutor(...) construction found"))
+    for n, rootarg in ncomp:
         conds = [canon(c) for g in n.generators for c in g.ifs]
-        if conds and all("_zip_path_is_within(name, src)" in c for c in conds):
+        tv = canon(n.generators[0].target)
+        if conds and all(c.replace(" ", "") == f"_zip_path_is_within({tv},{rootarg})" for c in conds) and canon(n.elt) == tv:
             out.append(ctx.ok(R, za, n, "a job receives exactly the archive members inside its own directory (component-wise test)"))
         elif conds:
             out.append(ctx.inc(R, za, n, f"member selection: {conds}"))
